@@ -34,6 +34,12 @@ def build_case(ck, case):
     sub = None
     if case.get("subset"):
         sub = gen.connected_subsets(topo, rng, max(2, int(round(topo.ncells() * case["subset"]))))
+        if case.get("lone_cell"):
+            # plus a cell that shares no vertex with the others: a cell without any junction (the code drops it with a warning)
+            used_j = {j for c_ in sub for j in topo.cells[c_]}
+            lone = sorted(c_ for c_ in range(topo.ncells()) if c_ not in sub and not (set(topo.cells[c_]) & used_j))
+            if lone:
+                sub = list(sub) + [lone[int(rng.integers(len(lone)))]]
     kmin, kmax = case.get("kmin", 0), case.get("kmax", 40)
     ks = {}
     def k_of(r):
@@ -190,6 +196,17 @@ def run_one(ck, case, reqs, pending):
         same = ({k: val[:2] for k, val in snap1["v"].items()} == {k: val[:2] for k, val in snap2["v"].items()}
                 and snap1["c"] == snap2["c"]
                 and sorted(canon_path(p) for p in snap1["e"].values()) == sorted(canon_path(p) for p in snap2["e"].values()))
+        if same:
+            # ... nor the edges a vertex is attached to: what each vertex lists (resolved to end points; ids are renumbered by every
+            # pass) and how many entries it lists
+            def attached(snap):
+                return {k: (len(val[2]), sorted(canon_path(snap["e"][q]) for q in val[2] if q in snap["e"])) for k, val in snap["v"].items()}
+            a1, a2 = attached(snap1), attached(snap2)
+            if a1 != a2:
+                bad_ = [k for k in a1 if a1[k] != a2.get(k)][:3]
+                ck.fail("resampling an already resampled mesh changes nothing", f"the mesh edges listed by vertices {bad_} differ after the second pass: "
+                        f"{[a1[k] for k in bad_][:2]} vs {[a2.get(k) for k in bad_][:2]}", case,
+                        signature="merge-chain-of-two-point-border-interfaces" if (replace and chain) else None)
         if not same:
             sig = "second-pass-merges-new-two-point-border-interfaces" if (replace and ncand2 > 0) else None
             only_duplicate_edges = ({k: val[:2] for k, val in snap1["v"].items()} == {k: val[:2] for k, val in snap2["v"].items()}
@@ -276,6 +293,10 @@ def run(ck):
                           "replace": bool(ck.rng.integers(2)), "mobius": bool(ck.rng.integers(5) == 0),
                           "relabel": bool(ck.rng.integers(2)),
                           "shift": [(0.0, 0.0), (-500.0, -300.0)][int(ck.rng.integers(2))]})
+        for i in range(4 if ck.tier == "quick" else 24):
+            cases.append({"type": "voronoi", "seed": int(ck.rng.integers(1 << 30)), "sites": int(ck.rng.integers(20, 34)), "kind": ["random", "jitter", "hex"][i % 3],
+                          "subset": 0.3, "lone_cell": True, "kmin": [0, 2][i % 2], "kmax": 8, "ne": int(ck.rng.integers(2, 9)), "replace": bool(i % 2),
+                          "mobius": False, "relabel": bool(i % 2), "shift": (0.0, 0.0)})
         for ne in ([6] if ck.tier == "quick" else [2, 4, 6, 9]):
             cases.append({"type": "fixture", "seed": 0, "path": "tests/data/test_nonzero.tif", "ne": ne, "replace": True})
             cases.append({"type": "fixture", "seed": 0, "path": "tests/data/initial_furrow.dmp", "ne": ne, "replace": True})
